@@ -1408,6 +1408,21 @@ class Tr:
             return ("callFn", target, lean, [self.expr(a) for a in args])
         return ("callFn", target, lean, [("var", self.self_name)] + [self.expr(a) for a in args])
 
+    def rebound_by_call_before(self, x: str, s) -> bool:
+        """the parameter `x` is assigned `x = <call>` by a top-level statement of the function that precedes (the top-level
+        statement containing) `s`, and never bound in any other way: when `s` runs it holds the object that call returned"""
+        body, pos, first = self.fn.body, None, None
+        for k, st in enumerate(body):
+            if pos is None and any(n is s for n in ast.walk(st)):
+                pos = k
+            if first is None and isinstance(st, ast.Assign) and len(st.targets) == 1 and isinstance(st.targets[0], ast.Name) \
+                    and st.targets[0].id == x and isinstance(st.value, ast.Call):
+                first = k
+        if pos is None or first is None or first >= pos:
+            return False
+        stores = [n for n in ast.walk(self.fn) if isinstance(n, ast.Name) and n.id == x and isinstance(n.ctx, ast.Store)]
+        return len(stores) == 1
+
     def check_local_obj(self, x: str):
         """an object whose attribute is assigned: a local that is only ever bound by calls and never aliased"""
         if x in self.params or x not in self.bound:
@@ -1629,6 +1644,8 @@ class Tr:
                     pre, v = self.hoist(s.value)
                 if x == self.self_name:
                     self.mutates_self = True
+                elif x in [a.arg for a in self.fn.args.args] and self.rebound_by_call_before(x, s):
+                    pass        # the parameter holds a fresh object by now: not the caller's
                 elif x in [a.arg for a in self.fn.args.args]:
                     self.mutates_params.add([a.arg for a in self.fn.args.args].index(x))
                 else:
@@ -1907,6 +1924,10 @@ def extract_funcs(src, funcs, scoped_comp=False, plumbing=False, opaque=None, or
             # round 3: nested defs of this function that are translated earlier in the module are called through `callFn`
             nested = {q.rsplit(".", 1)[1]: l for l, r, q in funcs if r == rel and l in meta
                       and q.rsplit(".", 1)[0] == path}
+            # round 4: module-level functions of the same file that are translated earlier, too
+            for l, r, q in funcs:
+                if r == rel and l in meta and "." not in q and q not in nested:
+                    nested[q] = l
             encl = [sc for sc in scopes if isinstance(sc, ast.FunctionDef)]
             if encl:
                 # a nested def translated on its own must be CLOSED: it reads no variable of the enclosing functions
